@@ -4860,6 +4860,15 @@ fn layout_section_parts<P: Platform>(
                             &mut mem_offset,
                         );
                     }
+                } else if program_segments.is_tls_segment(segment_id)
+                    && !args.should_output_partial_object()
+                    && let Some(tls_alignment) = segment_alignments.get(&segment_id)
+                {
+                    // PT_TLS's p_align is the maximum alignment of the TLS sections (.tbss may be
+                    // more aligned than .tdata) and the runtime requires p_vaddr to be congruent
+                    // to 0 modulo p_align, so the first TLS section must start suitably aligned.
+                    mem_offset = tls_alignment.align_up(mem_offset);
+                    file_offset = tls_alignment.align_up_usize(file_offset);
                 }
             }
             OrderEvent::SegmentEnd(_) => {}
@@ -4985,6 +4994,13 @@ fn compute_segment_alignments<P: Platform>(
                     segment_alignments
                         .entry(segment_id)
                         .or_insert_with(|| args.loadable_segment_alignment());
+                    active_load_segments.push(segment_id);
+                } else if program_segments.is_tls_segment(segment_id) {
+                    // We also track the maximum alignment of the sections of the TLS segment, since
+                    // the segment's start needs to honour it.
+                    segment_alignments
+                        .entry(segment_id)
+                        .or_insert(alignment::MIN);
                     active_load_segments.push(segment_id);
                 }
             }
